@@ -1,5 +1,6 @@
 import Synphot.Driver.Objects
 import Synphot.Core.Heap
+import Synphot.Core.Trapz
 
 /-
   C19 driver: replay a history of public calls on the store model (`Core/Heap.lean`, K = ℚ, the code
@@ -244,6 +245,32 @@ def sampleJson (env : HEnv Rat) (h : Heap Rat) (opq : List Nat) (o : Nat) (probe
         | .ok v => jRats v
         | .error e => Json.mkObj [("err", Json.str e.name)]
 
+/-- the default-wavelength readings of object `o` in its current state: size and range of `waveset`,
+`integrate()` (trapezoid of |samples| over the waveset) and, for a bandpass, `avgwave()` -/
+def readingJson (env : HEnv Rat) (thr : Rat) (bbss : Rat → Option (List Rat)) (h : Heap Rat)
+    (opq : List Nat) (o : Nat) : Json :=
+  match waveset thr bbss h o with
+  | .error e => Json.mkObj [("err", Json.str e.name)]
+  | .ok none => Json.mkObj [("none", Json.bool true)]
+  | .ok (some w) =>
+      let base := [("n", jNat w.length), ("lo", jRat (w.headD 0)), ("hi", jRat (w.getLastD 0))]
+      let numeric := match h.objs[o]? with
+        | some ob => !(opq.contains o || HTree.hasBB ob.tree)
+        | none => false
+      if !numeric then Json.mkObj base else
+      match sample env h o w with
+      | .error _ => Json.mkObj base
+      | .ok y =>
+          let integ : Rat := |trapzXY w (y.map fun v => |v|)|
+          let isBand : Bool := match h.objs[o]? with | some ob => decide (ob.kind = .bandpass) | none => false
+          let avg : List (String × Json) :=
+            if isBand then
+              let num := trapzXY w (List.zipWith (· * ·) y w)
+              let den := trapzXY w y
+              [("avg", jRat (if den = 0 then 0 else |num / den|))]
+            else []
+          Json.mkObj (base ++ [("integ", jRat integ)] ++ avg)
+
 def dispatchC19M (op : String) (j : Json) : M Json := do
   match op with
   | "heap_history" => do
@@ -265,12 +292,23 @@ def dispatchC19M (op : String) (j : Json) : M Json := do
             { copyBeforeClip := l.contains "clip", copyExtHeader := l.contains "ext",
               errstate := l.contains "errstate" }
         | _ => Fixes.current
+      let thr ← match fOpt j "thr" with
+        | some v => asRat v
+        | none => pure (1 / 1000000000000 : Rat)
       let ncaller := arrs.length
+      let mut bbTab : List (Rat × List Rat) := []
       let mut h : Heap Rat := Heap.init arrs dicts
       let mut opq : List Nat := []
       let mut outs : Array Json := #[]
       for s in steps do
         let (c, dataMissing) ← parseCall s
+        -- a black body's sampling set is data (`BlackBody1D.sampleset()`)
+        match c, fOpt s "ss" with
+        | .newBlackBody t _ _, some v => do
+            let ss ← asRats v
+            bbTab := (t, ss) :: bbTab
+        | _, _ => pure ()
+        let bbss : Rat → Option (List Rat) := fun t => (bbTab.find? fun p => p.1 == t).map (·.2)
         let (h', out) := step fx env h c
         let nOld := h.objs.length
         let newIds := (List.range (h'.objs.length - nOld)).map (· + nOld)
@@ -292,6 +330,7 @@ def dispatchC19M (op : String) (j : Json) : M Json := do
         let metas := (metaCh ++ newIds).map fun o =>
           (toString o, match h'.objs[o]? with | some ob => jMeta ob.md | none => Json.null)
         let samples := (objCh ++ newIds).map fun o => (toString o, sampleJson env h' opq o probe)
+        let dflt := (objCh ++ newIds).map fun o => (toString o, readingJson env thr bbss h' opq o)
         let kinds := newIds.map fun o =>
           (toString o, match h'.objs[o]? with | some ob => Json.str (kindName ob.kind) | none => Json.null)
         -- values of an object whose numbers the model does not know are not reported
@@ -314,7 +353,8 @@ def dispatchC19M (op : String) (j : Json) : M Json := do
           ("meta_changed", Json.arr (metaCh.map fun o => jNat o).toArray),
           ("meta", Json.mkObj metas),
           ("kinds", Json.mkObj kinds),
-          ("samples", Json.mkObj samples)])
+          ("samples", Json.mkObj samples),
+          ("dflt", Json.mkObj dflt)])
         -- the harness restores a process-wide setting it finds changed before it continues
         h := { h' with npErr := NpErr.default }
       pure (Json.mkObj [("ok", Json.arr outs)])
